@@ -43,13 +43,15 @@ const (
 	nTypes
 )
 
-var typeName = []string{"encoded-small", "encoded-large", "config-change", "empty-application"}
+var typeName = []string{"encoded-small(payload carries another leader index)", "encoded-large", "config-change", "empty-application"}
 
 func mkEntry(index uint64, t int) raftpb.Entry {
 	e := raftpb.Entry{Index: index, Term: 1}
 	switch t {
 	case tSmall:
-		b, _ := Put(fmt.Sprintf("k%d", index), "v", false).MarshalVT()
+		// the payload carries a leader index of its own, as every entry of a follower's log does (a
+		// follower that later serves its log, a table loaded from a replication snapshot or reset)
+		b, _ := WithLeader(Put(fmt.Sprintf("k%d", index), "v", false), 5000+index).MarshalVT()
 		e.Type = raftpb.EncodedEntry
 		e.Cmd = append([]byte{0}, b...)
 	case tLarge:
@@ -514,7 +516,7 @@ func Run(r *evid.Run) {
 	if r.Thorough() {
 		maxN, depth, caps = 6, 10, []int{1, 2, 3, 8}
 	}
-	r.Rule(fmt.Sprintf("state = (log entries 1..n each of a type from {encoded small, encoded large, config-change, empty application}, compaction marker, applied index, the cache's index run, cache capacity); transitions = append, apply, compact-to-j (the LogCompacted system event delivered through the engine's real listener and dispatcher), and for every first in 1..applied+1(+2) and maxSize in {1, one small entry, two small entries+1, unlimited} a query through the real Cached reader / the real LogServer.Replicate over it (these mutate the cache); in every new structural state all queries through the real Simple reader and an uncached LogServer are checked too. BFS to depth %d from the empty log and to depth-2 from non-initial states (4 small entries applied; small/large/config/empty applied; large/small/small applied), n <= %d, capacities %v, visited set on the complete tuple (cache run via hook dump). The Raft log is a model of dragonboat's LogReader (GetRange/Entries incl. size cut and at-least-one rule)", depth, maxN, caps))
+	r.Rule(fmt.Sprintf("state = (log entries 1..n each of a type from {encoded small whose payload carries a leader index of its own, encoded large, config-change, empty application}, compaction marker, applied index, the cache's index run, cache capacity); transitions = append, apply, compact-to-j (the LogCompacted system event delivered through the engine's real listener and dispatcher), and for every first in 1..applied+1(+2) and maxSize in {1, one small entry, two small entries+1, unlimited} a query through the real Cached reader / the real LogServer.Replicate over it (these mutate the cache); in every new structural state all queries through the real Simple reader and an uncached LogServer are checked too. BFS to depth %d from the empty log and to depth-2 from non-initial states (4 small entries applied; small/large/config/empty applied; large/small/small applied), n <= %d, capacities %v, visited set on the complete tuple (cache run via hook dump). The Raft log is a model of dragonboat's LogReader (GetRange/Entries incl. size cut and at-least-one rule)", depth, maxN, caps))
 	// BFS from the empty log and from non-initial states (logs already appended and applied), sharing
 	// one visited set per capacity
 	pre := func(types ...int) []event {
